@@ -449,6 +449,23 @@ def check(ax, case, rec):
             ij = {2: [(0, 0), (1, 1), (0, 1)], 3: [(0, 0), (1, 1), (2, 2), (0, 1), (1, 2), (0, 2)]}[d]
             refv = per_item(lambda e: np.array([e[i, j] * (2 if i != j else 1) for i, j in ij]), [ref], [2], 1)
             cmp("strain-voigt", fm.strain(None, C=C, asvoigt=True, k=k), refv, tol=1e-9)
+        if d == 3 and case["seed"] % 3 == 0:
+            # the same measures from a field container (C = F^T F of the field's deformation gradient) and the field helpers
+            fem = import_felupe()
+            mesh = fem.Cube(n=2)
+            fcont = fem.FieldContainer([fem.Field(fem.RegionHexahedron(mesh), dim=3)])
+            fcont[0].values[...] = 0.1 * np.random.default_rng(case["seed"]).uniform(-1, 1, fcont[0].values.shape)
+            Ff = np.asarray(fcont.extract()[0])
+            Cf = np.einsum("ki...,kj...->ij...", Ff, Ff)
+            cmp("strain(field)=strain(C=F^T F)", fm.strain(fcont, k=k), fm.strain(None, C=Cf, k=k), tol=1e-12)
+            cmp("strain(field, principal)", fm.strain(fcont, tensor=False, k=k), fm.strain(None, C=Cf, tensor=False, k=k), tol=1e-12)
+            cmp("deformation_gradient(field)", fm.deformation_gradient(fcont), Ff, tol=0.0)
+            cmp("right_cauchy_green_deformation(field)", fm.right_cauchy_green_deformation(fcont), Cf, tol=1e-15)
+            cmp("displacement(field)", fm.displacement(fcont), fcont[0].values, tol=0.0)
+            cmp("values(field)", fm.values(fcont), fcont[0].values.ravel(), tol=0.0)
+            if k in (0, 2):
+                ev = fcont.evaluate.log_strain() if k == 0 else fcont.evaluate.green_lagrange_strain()
+                cmp("field.evaluate.<strain>", ev, fm.strain(None, C=Cf, k=k), tol=1e-12)
     elif ax == "linsteps":
         pts = case["pts"]
         num = case["num"]
